@@ -229,6 +229,125 @@ def kf_slsqp(v, f):
     # the overall tolerance may only be missed after the code has used up all ten of its retries
     return v.clause == "C17.linearisation_within_max_deviation" and v.case.get("ncalls", 0) >= 10
 
+# ---------------------------------------------------------------------------
+# clean_composite_curve near its tolerance: spec/CleanTol.tla
+U_TOL = 1e-6 * 5.0 / 31.0      # one ordinate unit in K: the code's tolerance 1e-6 K is 31/5 units
+CT_BASE = dict(YU=100, Perts={0, 4, 8}, TolNum=31, TolDen=5, XDen=1000, RawOnly=False, CrossTol=False)
+CT_CFG = {"quick": dict(MaxPts=4, MaxCoord=4, XMax=3), "thorough": dict(MaxPts=5, MaxCoord=4, XMax=4)}
+
+
+def _ct_tlc(consts, invs=(), post=None, env=None, workers=16):
+    tmp = Path(tempfile.mkdtemp(prefix="tlccfg_"))
+    try:
+        cfg = tmp / "mc.cfg"
+        write_cfg(cfg, spec="Spec", constants=consts, invariants=invs, postcondition=post)
+        return run_tlc("CleanTol.tla", cfg, workers=workers, xmx="8g", env=env)
+    finally:
+        shutil.rmtree(tmp, ignore_errors=True)
+
+
+def _kept_indices(ys, ry):
+    """indices (1-based) of the returned points in the input (ordinates are strictly descending and distinct)"""
+    out = []
+    for v in ry:
+        j = min(range(len(ys)), key=lambda k: abs(ys[k] - v))
+        if abs(ys[j] - v) > 1e-9:
+            return None
+        out.append(j + 1)
+    return out
+
+
+def long_curves(tier, rnd):
+    """gently curved composite curves of 20-500 points (every point within the tolerance of its raw neighbours' chord),
+    as integer records in CleanTol units: [[x, y]] with x = enthalpy index, y = ordinate in units of U_TOL"""
+    out = []
+    for n in ((20, 60, 200, 500) if tier == "quick" else (20, 35, 60, 120, 200, 350, 500)):
+        for k in range(2 if tier == "quick" else 6):
+            bend = rnd.choice([1, 2, 3, 5]) * rnd.choice([1, -1])        # second difference in units (<= 5 < 6.2: raw test drops every point)
+            slope = rnd.choice([50, 400, 3000])
+            ys, y = [], 0
+            for i in range(n):
+                ys.append(y)
+                y -= slope + (bend * i if bend > 0 else -bend * (n - i))
+            ys = [v - ys[-1] for v in ys]
+            if max(ys) > 1_500_000_000 // (n + 1):
+                continue
+            out.append(dict(id=f"long|n={n}|bend={bend}|slope={slope}|{k}", curve=[[n - 1 - i, ys[i]] for i in range(n)]))
+    return out
+
+
+def leg_cleantol(run, tier, clean_composite_curve, rnd):
+    consts = dict(CT_BASE, Mode='"gen"', DoEmit=True, **CT_CFG["quick" if tier == "quick" else "thorough"])
+    res = _ct_tlc(consts, ["C17_CleanWithinTol", "EmitCase"])
+    run.add_tlc(res, "CleanTol/gen")
+    if res.violated:
+        run.machinery_errors.append(f"Leg M: spec/CleanTol.tla violates {res.violated}:\n{res.error_trace[:1200]}")
+        return
+    scales = (50.0, 1.0 / 3.0, 1e-3)          # kW-, 1/3- and MW-scale enthalpy units: the function must not care
+    events = []
+    n_mismatch = 0
+    for ci, case in enumerate(res.cases):
+        curve = case["curve"]
+        c2 = scales[(ci + seed()) % 3]
+        a = 100.0 if ci % 2 else 0.0
+        ys = [a + U_TOL * p[1] for p in curve]; xs = [c2 * p[0] for p in curve]
+        run.cov["evaluations"] += 1
+        run.cov["traces_validated_against_impl"] += 1
+        try:
+            ry, rx = clean_composite_curve(ys, xs)
+        except Exception as e:
+            run.violation("C17.clean_raises", dict(curve=curve, c=c2), dict(exc=repr(e)[:200])); continue
+        kept = _kept_indices(ys, list(ry))
+        if kept is None:
+            run.violation("C17.clean_original_order", dict(curve=curve, c=c2, a=a), dict(reason="a returned point is not an input point", T=[float(v) for v in ry])); continue
+        if kept != case["kept"]:
+            n_mismatch += 1
+            if n_mismatch <= 20:
+                run.drift.append(f"clean_composite_curve keeps {kept}, spec/CleanTol.tla {case['kept']} on {curve} (x scale {c2})")
+        # the specification's own result is judged by the invariant; a real result is sent to the judge when it differs, plus a sample
+        if kept != case["kept"] or ci % 40 == seed() % 40:
+            events.append(dict(id=f"ct|{ci}|{c2}", curve=curve, kept=kept, c=c2, a=a))
+    for rec in long_curves(tier, rnd):
+        curve = rec["curve"]
+        for c2 in scales:
+            ys = [U_TOL * p[1] for p in curve]; xs = [c2 * p[0] for p in curve]
+            run.cov["evaluations"] += 1
+            run.cov["traces_validated_against_impl"] += 1
+            try:
+                ry, rx = clean_composite_curve(ys, xs)
+            except Exception as e:
+                run.violation("C17.clean_raises", dict(id=rec["id"], c=c2), dict(exc=repr(e)[:200])); continue
+            kept = _kept_indices(ys, list(ry))
+            if kept is None:
+                run.violation("C17.clean_original_order", dict(id=rec["id"], c=c2), dict(reason="a returned point is not an input point")); continue
+            events.append(dict(id=f"{rec['id']}|{c2}", curve=curve, kept=kept, c=c2, a=0.0))
+    run.notes["cleantol"] = dict(cases=len(res.cases), differing_from_spec=n_mismatch, judged_events=len(events))
+    tmp = Path(tempfile.mkdtemp(prefix="trace_"))
+    try:
+        tf = tmp / "ct.json"
+        tf.write_text(json.dumps([dict(id=e["id"], curve=e["curve"], kept=e["kept"]) for e in events]))
+        jr = _ct_tlc(dict(CT_BASE, Mode='"judge"', DoEmit=False, **CT_CFG["quick"]), [], post="TraceAccepted", env={"TRACE_FILE": str(tf)}, workers=1)
+    finally:
+        shutil.rmtree(tmp, ignore_errors=True)
+    run.add_tlc(jr, "CleanTol/judge")
+    if jr.violated:
+        raise MachineryError("CleanTol trace not consumed:\n" + jr.stdout[-1500:])
+    byid = {e["id"]: e for e in events}
+    for tag, obj in jr.lines:
+        if tag == "VERDICT":
+            e = byid[obj["id"]]
+            small = e if len(e["curve"]) <= 12 else dict(id=e["id"], kept=e["kept"], c=e["c"], a=e["a"], n=len(e["curve"]))
+            for c in obj["fails"]:
+                run.violation(c, small, dict(leg="T", judge="TLC CleanTol!Fails", unit_K=U_TOL), leg="T")
+    if tier == "thorough":
+        mm = {}
+        for label, ov in (("RawOnly", dict(RawOnly=True)), ("CrossTol+RawOnly", dict(RawOnly=True, CrossTol=True))):
+            r = _ct_tlc(dict(CT_BASE, Mode='"gen"', DoEmit=False, **CT_CFG["quick"], **ov), ["C17_CleanWithinTol"])
+            mm[label] = r.violated
+            if not r.violated:
+                run.machinery_errors.append(f"mutant model CleanTol/{label} not rejected")
+        run.notes["mutant_models_cleantol"] = mm
+
 
 def check(prop, tier, run: Run, replay_case=None):
     repo_import()
@@ -268,26 +387,6 @@ def check(prop, tier, run: Run, replay_case=None):
                     run.drift.append(f"clean_composite_curve differs from spec on {curve}")
                 if len(case["result"]) < len(curve):
                     nontriv.add(json.dumps(curve))
-                # near-collinear variants: every interior point the specification removes is moved off its chord by
-                # 5e-6 K (five times the tolerance: must not be lost) and by 2e-7 K (may be lost), in kW-, 1/3- and MW-scale enthalpy units
-                xs_ = [p[0] for p in curve]
-                nf = [i for i in range(len(curve)) if not all(xs_[j] == xs_[0] for j in range(i + 1)) and not all(xs_[j] == xs_[-1] for j in range(i, len(curve)))]
-                kept_pts = {tuple(p) for p in case["result"]}
-                if nf:
-                    lo_, hi_ = max(min(nf) - 1, 0), min(max(nf) + 1, len(curve) - 1)
-                    for j in range(lo_ + 1, hi_):
-                        if tuple(curve[j]) in kept_pts:
-                            continue
-                        for delta in (5e-6, -5e-6, 2e-7):
-                            for c2 in (50.0, 1.0 / 3.0, 1e-3):
-                                pts = [(a + b * p[1] + (delta if i == j else 0.0), c2 * p[0]) for i, p in enumerate(curve)]
-                                try:
-                                    ry2, rx2 = clean_composite_curve([t for t, _ in pts], [h for _, h in pts])
-                                except Exception as e:
-                                    run.violation("C17.clean_raises", case, dict(exc=repr(e)[:200], perturbed=j, delta=delta, c=c2)); continue
-                                run.cov["evaluations"] += 1
-                                for clause, d in judge_clean_T(pts, ry2, rx2, lo_, hi_):
-                                    run.violation(clause, dict(case, perturbed=j, delta=delta, a=a, b=b, c=c2), d)
             else:
                 s = 1.0 if ci % 2 == 0 else 0.37
                 eps = math.sqrt(case["eps2"]) * s
@@ -306,6 +405,7 @@ def check(prop, tier, run: Run, replay_case=None):
                 if 2 < len(case["result"]) < len(curve):
                     nontriv.add(json.dumps([curve, case["eps2"]]))
         run.cov["samples"] += [{"config": name, "curve": c["curve"], "result": c["result"]} for c in res.cases[len(res.cases) // 2:][:1]]
+    leg_cleantol(run, tier, clean_composite_curve, random.Random(170 + seed()))
     # ---- Leg T
     events, meta = trace_events(tier)
     tmp = Path(tempfile.mkdtemp(prefix="trace_"))
